@@ -238,6 +238,20 @@ theorem C02_full_fails_function_negative_under_str_type : ¬ C02_full envP :=
   refute envP .function {} (one "x" { doc := some "a value", typ := some "Union[str, int]", default := some (.val (.int (-3))) })
     (by decide) (by decide) (by decide)
 
+/-- **a string default wrapped in one kind of quote loses the pair** (`set_value` strips it when the value is written) -/
+theorem class_same_quoted_default_unwrapped :
+    roundTrip envP .class_ {} (one "x" { doc := some "a value", typ := some "str", default := some (.val (.str "'x'")) }) =
+      .ok ([{ name := "x", typ := some "str", default := some (.val (.str "x")), doc := some "a value" }], none) := by decide
+theorem C02_full_fails_same_quoted_default_unwrapped : ¬ C02_full envP :=
+  refute envP .class_ {} (one "x" { doc := some "a value", typ := some "str", default := some (.val (.str "'x'")) }) (by decide) (by decide) (by decide)
+
+/-- … whereas a default that begins with one kind of quote and ends with the other is inside `D02` and comes back whole
+    (an instance of `C02_class`, evaluated) -/
+theorem class_mixed_quote_default_kept :
+    inD02 envP .class_ {} (one "x" { doc := some "a value", typ := some "str", default := some (.val (.str "'{name}' is not \"{other}\"")) }) = true ∧
+    roundTrip envP .class_ {} (one "x" { doc := some "a value", typ := some "str", default := some (.val (.str "'{name}' is not \"{other}\"")) }) =
+      .ok ([{ name := "x", typ := some "str", default := some (.val (.str "'{name}' is not \"{other}\"")), doc := some "a value" }], none) := by decide
+
 def envR (t : String) (tbl : List (String × Expr)) : Env :=
   envOf "doc" (docOne "x" "a value" (some "int") (some { doc := some "the result", typ := some t })) tbl
 def irR (t s : String) : IR := one "x" { doc := some "a value", typ := some "int" } (some { doc := some "the result", typ := some t, default := some (.val (.str s)) })
